@@ -7,8 +7,16 @@ Ties (all run on every check):
                             GUIDParser.score_guid;
   * pipeline oracles      — recognize_ip_address / recognize_guid against Python's `ipaddress` / `uuid` modules
                             (independent of model and regexes): completeness + exact span for delimited valid tokens;
-                            soundness on EVERYTHING reported, near misses included (see `ip_entity_problems` /
-                            `guid_entity_problems` for what exactly is demanded and why);
+                            soundness in the property's LITERAL sense on everything reported, near misses included: a
+                            reported IP entity is a valid address and its resolved value denotes the same address;
+  * own-token observations — a VALID reported address that is glued to an ASCII letter / digit or is a truncation of a
+                            longer valid address (`ip_entity_problems`), and a reported GUID that is not strictly shaped
+                            (`guid_entity_problems`), are NOT property failures (the soundness clause speaks of validity
+                            only).  Each such query is replayed on the Lean model (`spec.ip` / `guid.extract`): where
+                            the model reports something else it is a correspondence break (`ip-extract-differs`,
+                            `guid-extract-differs`), where the model agrees it is counted as evidence
+                            (`own_token_observations`); `search` turns them into localising witnesses when a proof
+                            obligation broke;
   * correspondence only   — grammar-generated e-mail / URL / hashtag / mention / phone strings through recognize_*: one
                             entity, value == text == generated string (their regexes are outside the translator).
 """
@@ -37,6 +45,7 @@ REQUIRED_THEOREMS = ['octet_lang', 'ipv4_lang', 'ipv4_sound', 'prefix_ipv4_unsou
                      'ipExtract_reports', 'ipv4_extract_complete', 'ipv4_token_reported', 'ipv6_reported_span',
                      'ipv6_extract_complete', 'ip_extract_reports_valid', 'ipv4_dotted_run_reports_prefix',
                      'longer_dotted_run_invalid', 'dotted_run_witness', 'real_tablesOk', 'real_noSpace', 'real_seps',
+                     'zh_latin_k_observation', 'zh_latin_j_blocks', 'zh_ellipsis_end_after_cjk_observation',
                      # Lemmas/ReNullable.lean (audit item 34): the model's findAll is the libraries' finditer on every translated pattern
                      'translated_findAll_is_finditer', 'findAll_eq_findAllPy', 'ends_progress']
 RULE = ('regex correspondence: per translated pattern, strings sampled from the pattern, mutated, embedded in contexts '
@@ -94,8 +103,11 @@ def ip_unglued(q, a, b):
 
 
 def ip_entity_problems(q, a, b):
-    """What the property's soundness clause ("anything reported as an IP address is a valid address") demands of ONE
-    reported entity with span q[a:b], decided as follows (audit item 19).  A *candidate* is a span that is
+    """Own-token diagnosis of ONE reported entity with span q[a:b] (audit item 19).  Coordinator ruling: under the
+    property's LITERAL soundness clause ("anything reported as an IP address is a valid address") only the first item
+    (`unsound`) is a property failure; the others describe a VALID address that does not stand as its own token — they are
+    observations, followed up against the Lean model (see `own_token_followup`), never `kind='property'`.
+    A *candidate* is a span that is
 
       valid     a valid address for the stdlib `ipaddress` module (dotted quad of 1-3 digit octets <= 255, or an RFC 4291
                 hex form, exploded or compressed), and
@@ -104,7 +116,7 @@ def ip_entity_problems(q, a, b):
                 Non-ASCII letters are not counted (the Chinese configuration treats CJK neighbours as delimiters on
                 purpose) and `_` is not counted.
 
-    Every reported entity must be a candidate, and must not be a truncation of the address that stands there:
+    Diagnosed: an entity that is no candidate, or is a truncation of the address that stands there:
 
       right-maximal   no candidate [a, y) with y > b (`1::2` out of `1::2:3`, `1.2.3.4` out of `1.2.3.45`);
       whole-token     if the maximal run of address characters around [a, b) (digits and `.`, or hex digits and `:`) is
@@ -113,8 +125,8 @@ def ip_entity_problems(q, a, b):
     A longer dotted / colon run that is NOT a valid address as a whole (`0.1.2.3.4`, `1::2:3:4:5:6:7:8`) is outside the
     completeness clause (it is not a valid address token), and the soundness clause does not forbid reporting a
     right-maximal candidate inside it that is delimited by `.` / `:` — `0.1.2.3` out of `0.1.2.3.4` IS a valid address
-    (Lean: `ipv4_dotted_run_reports_prefix`).  Such reports pass; reporting the whole run, a truncation or a glued
-    fragment does not.  -> list of (signature suffix, explanation)"""
+    (Lean: `ipv4_dotted_run_reports_prefix`).  Such reports are not even diagnosed.
+    -> list of (suffix, explanation); suffix 'unsound' = not a valid address"""
     out = []
     txt = q[a:b]
     if ip_value(txt) is None:
@@ -137,7 +149,7 @@ def ip_entity_problems(q, a, b):
 
 
 def glued_kind(q, a, b):
-    """sub-signature of a glued report: which mechanism of the code let it through ('' = none of the recorded ones)"""
+    """sub-kind of a glued observation: which mechanism of the code let it through ('' = none of the recorded ones)"""
     before = q[a - 1] if a > 0 else ''
     after = q[b] if b < len(q) else ''
     if q[a:b].endswith('::') and after in ASCII_ALNUM and not after.isdigit() and '\u0800' <= before <= '\u9fff':
@@ -173,7 +185,8 @@ def guid_shape(text):
 
 
 def guid_entity_problems(q, x):
-    """Demands on ONE entity of recognize_guid(q): exact span (text == value == the lower-cased query slice), the text is
+    """Diagnosis of ONE entity of recognize_guid(q) (the property has no soundness clause for GUIDs, so none of this is a
+    property failure; followed up against the model's GUID extractor, see `own_token_followup`): exact span (text == value == the lower-cased query slice), the text is
     exactly one well-formed GUID (strict dash positions, balanced wrapper), and a GUID reported without a wrapper is not
     a fragment of a longer ASCII alphanumeric run (`…cdef0` / `x0123…`).  -> list of (signature, explanation)"""
     out = []
@@ -192,6 +205,9 @@ def guid_entity_problems(q, x):
     if sh[0] == 'plain' and a > 0 and q[a - 1] in ASCII_ALNUM:
         out.append(('guid-glued', '%r is preceded by %r' % (txt, q[a - 1])))
     return out
+
+
+OBSERVED = {'ip': [], 'guid': []}     # own-token observations of this run: filled by the pipelines, consumed by own_token_followup
 
 
 def fmt_model_results(rs):
@@ -324,11 +340,11 @@ def check_ip_results(ctx, q, rs, expect=None, family='', culture=CULTURE):
                        failing_input=fi, property_fails=True)
             continue
         if q[r.start:r.end + 1] == txt:
+            # a VALID address that does not stand as its own token: observation, not a property failure
             for suffix, why in ip_entity_problems(q, r.start, r.end + 1):
                 if suffix == 'glued':
                     suffix += glued_kind(q, r.start, r.end + 1)
-                ctx.report('property', pre + 'ip-' + suffix, 'recognize_ip_address(%r, %r) reports %r at [%d,%d], which %s' % (
-                    q, culture, txt, r.start, r.end, why), failing_input=fi, property_fails=True)
+                OBSERVED['ip'].append((q, culture, suffix, 'reports %r at [%d,%d], which %s' % (txt, r.start, r.end, why)))
         try:
             vaddr = ipaddress.ip_address(val)
         except ValueError:
@@ -525,7 +541,7 @@ ZH_V6_CARRIERS = ['{}', '我电脑IP是{} ', '地址 {} 。', '({})']
 ZH_PROBES = ['1.2.3.٤', '我电脑IP是1.2.3.٤', '1.2.3.４', '١.٢.٣.٤', '::٤', '我::1', '1::我', '256.1.1.1', '我电脑IP是1.1.1.256',
              '我电脑IP是1.2.3.4.5', '错误的IPV6地址JKLN:ssej::1', 'K1.2.3.4', '1.2.3.4K', 'k1.2.3.4', 'j1.2.3.4', '1.2.3.4j',
              # a match ending in `::` glued to a following letter: rejected after a blank, let through after a CJK character
-             # (finding zh-ip-glued:ellipsis-end-after-cjk), rejected when a digit follows
+             # (observation zh_ip_glued_ellipsis_after_cjk, no property failure), rejected when a digit follows
              '是1:2:3:4:5:6:7::x', ' 1:2:3:4:5:6:7::x', '是1:2:3:4:5:6:7::9', '是1::x', '是::1', '1::是', '是1.2.3.4.5', '0.1.2.3.4']
 
 
@@ -587,7 +603,7 @@ def pipeline_guid(ctx, impl):
             ctx.nontriv(('guid', q))
             x = hit[0]
             for sig, why in guid_entity_problems(q, x):
-                ctx.report('property', sig, 'recognize_guid(%r): %s' % (q, why), failing_input=fi, property_fails=True)
+                OBSERVED['guid'].append((q, sig, why))
             sh = guid_shape(x.text)
             same = sh is not None and uuid.UUID(sh[1]) == u and x.resolution.get('value') == x.text
             if not same:
@@ -596,9 +612,9 @@ def pipeline_guid(ctx, impl):
             if k < 200:
                 texts.append(x.text)
     ctx.count('pipeline-guid', n)
-    # near misses: only soundness is demanded, but strictly (`guid_entity_problems`): every reported entity is exactly
-    # one well-formed GUID with its exact span; in particular nothing at all may be reported where no well-formed GUID
-    # stands
+    # near misses: the property states nothing for them (no soundness clause for GUIDs); every reported entity is
+    # diagnosed strictly (`guid_entity_problems`: exactly one well-formed GUID with its exact span) and what is diagnosed
+    # is followed up against the model's GUID extractor (`own_token_followup`)
     near = []
     for _ in range(1500 if ctx.thorough else 300):
         t = str(uuid.UUID(int=r.getrandbits(128)))
@@ -619,9 +635,7 @@ def pipeline_guid(ctx, impl):
         rs = impl.guid(q)
         for x in rs:
             for sig, why in guid_entity_problems(q, x):
-                ctx.report('property', sig, 'recognize_guid(%r) reports [%d,%d] %r: %s' % (q, x.start, x.end, x.text, why),
-                           failing_input={'op': 'recognize_guid', 'query': q, 'culture': CULTURE, 'reported': fmt_model_results(rs)},
-                           property_fails=True)
+                OBSERVED['guid'].append((q, sig, 'reports [%d,%d] %r: %s' % (x.start, x.end, x.text, why)))
     ctx.count('pipeline-guid-near-miss', len(near))
     return texts, near
 
@@ -790,7 +804,107 @@ def unit_phone(ctx, impl, extra):
                        failing_input={'op': 'phone.extract', 'query': q, 'implementation': a, 'model': b})
 
 
+def model_ip_triples(answer):
+    """`spec.ip` answer -> [(start, end, text code points)]"""
+    out = []
+    for ent in answer.split(';') if answer else []:
+        f = ent.split(':')
+        out.append((int(f[1]), int(f[2]), f[3]))
+    return out
+
+
+ZH_COUNTERS = {'glued:latin-k': 'zh_ip_glued_latin_k', 'glued:ellipsis-end-after-cjk': 'zh_ip_glued_ellipsis_after_cjk'}
+
+
+def own_token_followup(ctx, impl, as_proof_witness=False):
+    """Every query with an own-token observation is replayed on the Lean model: `spec.ip` (recognize_ip_address as
+    modelled, English / Chinese configuration) and `guid.extract`.  Model != implementation is a correspondence break;
+    model == implementation is evidence only: the two recorded quirks of the Chinese configuration get their own counters
+    (`zh_ip_glued_latin_k`: `[\u0800-\u9FFF]` under IGNORECASE contains U+212A, whose case folding is `k`;
+    `zh_ip_glued_ellipsis_after_cjk`: the `::`-end guard asks is_cjk(source[start - 1]) instead of source[i + 1]; optional
+    patches findings/sequence/*.diff — observations, not property violations), everything else is counted under
+    `own_token_observations`.  With `as_proof_witness` (called from `search` when a proof obligation broke) an observation
+    the model shares is reported as a localising witness of kind 'proof': the language / boundary theorems that exclude it
+    no longer check."""
+    ips = {}
+    for q, culture, suffix, why in OBSERVED['ip']:
+        ips.setdefault((q, culture), []).append((suffix, why))
+    keys = sorted(ips)
+    lines = ['spec.ip\t%s\tscore\t%s' % ('en' if c == CULTURE else 'zh', cps(q)) for q, c in keys]
+    model = common.driver(lines) if lines else []
+    witness_only = as_proof_witness      # second pass from `search`: correspondences and counters were done by `correspond`
+    if not witness_only:
+        ctx.count('own-token-followup-ip', len(lines))
+    examples, counts, witnessed = {}, {}, {}
+
+    def tally(name, example):
+        counts[name] = counts.get(name, 0) + 1
+        if not witness_only:
+            ctx.count(name)
+        ex = examples.setdefault(name, [])
+        if len(ex) < 8:
+            ex.append(example)
+    for (q, culture), m in zip(keys, model):
+        pre = '' if culture == CULTURE else 'zh-'
+        rs = impl.sr.recognize_ip_address(q, culture)
+        got = [(r.start, r.end, cps(r.text)) for r in rs]
+        try:
+            want = model_ip_triples(m)
+        except (ValueError, IndexError):
+            want = m
+        fi = {'op': 'recognize_ip_address', 'query': q, 'culture': culture, 'implementation': fmt_model_results(rs), 'model': m,
+              'observations': [w for _, w in ips[(q, culture)]]}
+        if got != want:
+            if not witness_only:
+                ctx.report('correspondence', pre + 'ip-extract-differs',
+                           'recognize_ip_address(%r, %r) %s; the model reports %s' % (q, culture, '; '.join(w for _, w in ips[(q, culture)]), want),
+                           failing_input=fi)
+            continue
+        for suffix, why in ips[(q, culture)]:
+            name = ZH_COUNTERS.get(suffix) if pre else None
+            if name is None:
+                name = 'own_token_observations'
+                sig = pre + 'ip-own-token-' + suffix.split(':')[0]
+                witnessed[sig] = witnessed.get(sig, 0) + 1
+                if as_proof_witness and witnessed[sig] <= 5:
+                    ctx.report('proof', sig,
+                               'a proof obligation no longer checks and recognize_ip_address(%r, %r) %s (the model, run on the '
+                               'regenerated patterns, agrees): the boundary statements of ipv4_lang / ipv6_lang / '
+                               'ip*_extract_complete exclude this on the unchanged tree' % (q, culture, why), failing_input=fi)
+            tally(name, {'query': q, 'culture': culture, 'observation': why, 'reported': [(a, b, common.uncps(t)) for a, b, t in got]})
+    # GUIDs
+    gqs = sorted({q for q, _, _ in OBSERVED['guid']})
+    lines = ['guid.extract\t' + cps(impl.preprocess(q)) for q in gqs]
+    model = common.driver(lines) if lines else []
+    if not witness_only:
+        ctx.count('own-token-followup-guid', len(lines))
+    for q, m in zip(gqs, model):
+        got = fmt_ers(impl.guid_extractor.extract(impl.preprocess(q)))
+        whys = [w for qq, _, w in OBSERVED['guid'] if qq == q]
+        fi = {'op': 'guid.extract', 'query': q, 'implementation': got, 'model': m, 'observations': whys}
+        if got != m:
+            if not witness_only:
+                ctx.report('correspondence', 'guid-extract-differs', 'BaseGUIDExtractor.extract(%r): implementation %s, model %s (%s)' % (
+                    q, got, m, '; '.join(whys)), failing_input=fi)
+            continue
+        witnessed['guid-shape'] = witnessed.get('guid-shape', 0) + 1
+        if as_proof_witness and witnessed['guid-shape'] <= 5:
+            ctx.report('proof', 'guid-shape', 'a proof obligation no longer checks and recognize_guid(%r) %s (the model, run on the '
+                       'regenerated pattern, agrees): guid_lang excludes this on the unchanged tree' % (q, '; '.join(whys)), failing_input=fi)
+        tally('own_token_observations', {'query': q, 'observation': whys})
+    if not witness_only:
+        ctx.extra['own_token_observations'] = {
+            'what': 'valid reported addresses that do not stand as their own token / reported GUID texts that are not strictly '
+                    'shaped, on which model and implementation AGREE: evidence, not a property failure (the soundness clause of '
+                    'C13 speaks of validity only). zh_ip_glued_*: the two recorded quirks of the Chinese configuration, optional '
+                    'patches under findings/sequence/',
+            'counts': dict({v: 0 for v in ZH_COUNTERS.values()}, own_token_observations=0, **counts),
+            'examples': examples}
+
+
 def correspond(ctx):
+    OBSERVED['ip'].clear()
+    OBSERVED['guid'].clear()
     impl = Impl()
     # regex correspondence (translator + matcher)
     recorr.run(ctx)
@@ -825,6 +939,7 @@ def correspond(ctx):
     for t in guid_texts[:60]:
         gq += [t + ' ' + t, 'x' + t, t + 'x', '{' + t + '}', "x'" + t + "'", 'urn:uuid:' + t, '%7b' + t + '%7d', t + '\n']
     unit_guid(ctx, impl, gq, guid_texts + [t for t in gq if len(t) < 80][:400])
+    own_token_followup(ctx, impl)
     ctx.sample({'op': 'recognize_ip_address', 'query': 'ip 010.0.0.255 here',
                 'implementation': fmt_model_results(impl.ip('ip 010.0.0.255 here'))})
     # the witness of the regression theorem prefix_ipv4_unsound_unicode_digits (defect #8, fixed by /repo d5d414a77)
@@ -916,3 +1031,6 @@ def search(ctx, proof_problems):
                            failing_input={'op': 'recognize_guid', 'query': t, 'lean_matcher_spans': m,
                                           'reported': fmt_model_results(rs)}, property_fails=True)
                 break
+    # own-token observations that the model (run on the regenerated, changed patterns) shares with the implementation:
+    # localising witnesses for the broken obligation (kind 'proof'; a VALID reported address is no property failure)
+    own_token_followup(ctx, impl, as_proof_witness=True)
